@@ -159,6 +159,15 @@ class LiftSubgraphInitializersToMainGraphPass(ir.passes.InPlacePass):
             output.name for node in model.graph for output in node.outputs if output.name
         }
         main_graph_input_names = {input.name for input in model.graph.inputs if input.name}
+        # Names defined by nodes or inputs of any subgraph: a lifted initializer becomes
+        # visible in all of them and must not be shadowed there
+        subgraph_value_names = {
+            value.name
+            for graph in model.graphs()
+            if graph is not model.graph
+            for value in (*graph.inputs, *(o for node in graph for o in node.outputs))
+            if value.name
+        }
         for graph in model.graphs():
             if graph is model.graph:
                 continue
@@ -188,6 +197,7 @@ class LiftSubgraphInitializersToMainGraphPass(ir.passes.InPlacePass):
                     new_name in model.graph.initializers
                     or new_name in main_graph_output_names
                     or new_name in main_graph_input_names
+                    or new_name in subgraph_value_names
                 ):
                     if name in registered_initializer_names:
                         registered_initializer_names[name] += 1
